@@ -83,6 +83,57 @@ def run_case(sub, case):
     return out
 
 
+def _account(st, case, out):
+    st["evals"] += 1
+    st["sub_evals"] += out.sub_evals
+    for c in out.classes:
+        st["classes"][c] += 1
+    if out.nontrivial:
+        d = digest(case)
+        if d not in st["nontriv"]:
+            st["nontriv"].add(d)
+            if len(st["samples"]) < 2:
+                st["samples"].append(case)
+            js = len(json.dumps(case))
+            if st["largest"] is None or js > st["largest"][0]:
+                st["largest"] = (js, case)
+    for (b, detail) in out.failures:
+        st["nfail"] += 1
+        sz = len(json.dumps(case))
+        cur = st["fails"].get(b)
+        if cur is None or sz < cur[0]:
+            if cur is None and len(st["fails"]) >= 40:
+                continue
+            st["fails"][b] = (sz, case, detail)
+
+
+def _job_result(st, subname, shard, exhaustive=False):
+    samples = list(st["samples"])
+    if st["largest"] is not None and st["largest"][1] not in samples:
+        samples.append(st["largest"][1])
+    return {
+        "sub": subname, "shard": shard, "evals": st["evals"], "sub_evals": st["sub_evals"],
+        "nontriv": list(st["nontriv"]), "classes": dict(st["classes"]),
+        "fails": {b: (sz, case, det) for b, (sz, case, det) in st["fails"].items()},
+        "samples": samples, "budget": st["budget"], "harness": st["harness"],
+        "excluded": dict(K.counts), "nfail": st["nfail"], "exhaustive": exhaustive and not st["budget"] and not st["harness"],
+    }
+
+
+def enumerate_job(sub, shard, n_shards, tier, st, deadline, subname):
+    try:
+        for i, case in enumerate(sub.enum(tier)):
+            if i % n_shards != shard:
+                continue
+            if time.time() > deadline:
+                st["budget"] = True
+                break
+            _account(st, case, run_case(sub, case))
+    except BaseException as e:  # noqa: BLE001
+        st["harness"] = "".join(traceback.format_exception(e))[-4000:]
+    return _job_result(st, subname, shard, exhaustive=True)
+
+
 def explore_job(a):
     (pid, subname, shard, n_shards, n_cases, seed, tier, active, budget) = a
     warnings.filterwarnings("ignore")
@@ -99,34 +150,16 @@ def explore_job(a):
         "samples": [], "budget": False, "harness": None, "largest": None, "nfail": 0,
     }
     deadline = time.time() + budget
+    if getattr(sub, "enum", None) is not None:
+        # exhaustive sub-space: every n_shards-th case of a deterministic enumeration (no Hypothesis involved)
+        return enumerate_job(sub, shard, n_shards, tier, st, deadline, subname)
     strat = sub.strategy(tier)
 
     def body(case):
         if time.time() > deadline:
             st["budget"] = True
             raise StopCampaign()
-        out = run_case(sub, case)
-        st["evals"] += 1
-        st["sub_evals"] += out.sub_evals
-        for c in out.classes:
-            st["classes"][c] += 1
-        if out.nontrivial:
-            d = digest(case)
-            if d not in st["nontriv"]:
-                st["nontriv"].add(d)
-                if len(st["samples"]) < 2:
-                    st["samples"].append(case)
-                js = len(json.dumps(case))
-                if st["largest"] is None or js > st["largest"][0]:
-                    st["largest"] = (js, case)
-        for (b, detail) in out.failures:
-            st["nfail"] += 1
-            sz = len(json.dumps(case))
-            cur = st["fails"].get(b)
-            if cur is None or sz < cur[0]:
-                if cur is None and len(st["fails"]) >= 40:
-                    continue
-                st["fails"][b] = (sz, case, detail)
+        _account(st, case, run_case(sub, case))
 
     test = given(strat)(body)
     test = settings(
@@ -141,16 +174,7 @@ def explore_job(a):
         pass
     except BaseException as e:  # noqa: BLE001
         st["harness"] = "".join(traceback.format_exception(e))[-4000:]
-    samples = list(st["samples"])
-    if st["largest"] is not None and st["largest"][1] not in samples:
-        samples.append(st["largest"][1])
-    return {
-        "sub": subname, "shard": shard, "evals": st["evals"], "sub_evals": st["sub_evals"],
-        "nontriv": list(st["nontriv"]), "classes": dict(st["classes"]),
-        "fails": {b: (sz, case, det) for b, (sz, case, det) in st["fails"].items()},
-        "samples": samples, "budget": st["budget"], "harness": st["harness"],
-        "excluded": dict(K.counts), "nfail": st["nfail"],
-    }
+    return _job_result(st, subname, shard)
 
 
 # ---------------------------------------------------------------- shrinking (ddmin over the JSON case)
@@ -400,6 +424,7 @@ def main(argv=None):
         ps["comparisons"] += r["sub_evals"]
         ps["distinct_nontrivial"].update(r["nontriv"])
         ps["budget_reached"] |= r["budget"]
+        ps["exhaustive"] = ps.get("exhaustive", True) and r.get("exhaustive", False)
         ps["shards"] += 1
         evaluations += r["evals"]
         nontriv.update((r["sub"], d) for d in r["nontriv"])
@@ -447,7 +472,8 @@ def main(argv=None):
             "oracle_comparisons": sum(v["comparisons"] for v in per_sub.values()),
             "per_subcheck": {k: {"evaluations": v["evaluations"], "comparisons": v["comparisons"],
                                  "distinct_nontrivial": len(v["distinct_nontrivial"]),
-                                 "budget_reached": v["budget_reached"], "shards": v["shards"]} for k, v in per_sub.items()},
+                                 "budget_reached": v["budget_reached"], "shards": v["shards"],
+                                 "exhaustive": bool(v.get("exhaustive"))} for k, v in per_sub.items()},
             "classes": dict(sorted(classes.items())),
             "excluded_by_known_finding": dict(excluded),
             "known_findings_reported": known_reported,
@@ -456,7 +482,7 @@ def main(argv=None):
             "buckets": [{"subcheck": s, "bucket": b, "replay": p} for s, b, d, p in violations],
             "budget_reached": budget_reached,
             "shards": len(jobs),
-            "exhaustive": False,
+            "exhaustive": bool(per_sub) and all(v.get("exhaustive") for v in per_sub.values()),
         },
         "assumptions": getattr(mod, "ASSUMPTIONS", []),
         "wall_s": round(wall, 2),
